@@ -47,6 +47,26 @@ theorem good_wait (s : St) (m : Meth) (n tp : Nat) (rest : List Fr) (hs : Calm s
   refine ⟨fun h => ?_, fun _ => ⟨hs.2, hc, stackOK_cons (by intro n b h; cases h) hk⟩⟩
   simp [hs.1] at h
 
+theorem runExit_good (s : St) (e : Err) : Good (runExit s (some e)) := by
+  have hc : (runExit s (some e)).closed = true := by
+    simp only [runExit, closeConn, sendReq, emit]
+    repeat' split
+    all_goals simp_all
+  have hr : (runExit s (some e)).closeRes = some e := by
+    simp only [runExit, closeConn, sendReq, emit]
+    repeat' split
+    all_goals simp_all
+  exact ⟨fun _ => by rw [hr]; simp, fun h => by rw [hc] at h; cases h⟩
+
+theorem swEnd_good (retK : St → Val → St) (hR : ∀ s' v, Handed s' v → Good (retK s' v)) :
+    ∀ s' v, Handed s' v → Good (swEnd retK s' v) := by
+  intro s' v hA
+  unfold swEnd
+  cases v <;> simp only []
+  all_goals first
+    | exact runExit_good _ _
+    | exact hR _ _ hA
+
 theorem connOpen_calm {s s1 : St} (h : connOpen s = some s1) (hd : Calm s) : Calm s1 ∧ s1.ctxDone = s.ctxDone := by
   unfold connOpen at h
   split at h
@@ -100,9 +120,9 @@ theorem describeStart_good (s : St) (rd : Nat) (fs k : List Fr) (retK : St → V
         (fun s' e h => hR _ _ (handed_err _ h)) (fun hf => by cases hf)
   · exact hR _ _ (handed_err _ hd.1)
 
-theorem setupStart_good (c : Cfg) (s : St) (a : SetupArgs) (k : List Fr)
-    (retK : St → Val → St) (hd : Calm s) (hk : StackOK k) (hR : ∀ s' v, Handed s' v → Good (retK s' v)) :
-    Good (setupStart c s a k retK) := by
+theorem setupStart_good (c : Cfg) (s : St) (a : SetupArgs) (fs k : List Fr)
+    (retK : St → Val → St) (hd : Calm s) (hk : StackOK (fs ++ k)) (hR : ∀ s' v, Handed s' v → Good (retK s' v)) :
+    Good (setupStart c s a fs k retK) := by
   unfold setupStart
   split
   · split
@@ -115,6 +135,16 @@ theorem setupStart_good (c : Cfg) (s : St) (a : SetupArgs) (k : List Fr)
         | exact hR _ _ (handed_err _ hd1.1)
         | exact startDo_good _ _ _ _ _ _ _ _ hd1 (stackOK_cons (by intro n b h; cases h) hk)
             (fun s' e h => hR _ _ (handed_err _ h)) (fun hf => by cases hf)
+  · exact hR _ _ (handed_err _ hd.1)
+
+theorem playStart_good (s : St) (fs k : List Fr) (retK : St → Val → St)
+    (hd : Calm s) (hk : StackOK (fs ++ k)) (hR : ∀ s' v, Handed s' v → Good (retK s' v)) :
+    Good (playStart s fs k retK) := by
+  unfold playStart
+  split
+  · exact startDo_good _ _ _ _ _ _ _ _ (by simpa [Calm] using hd)
+      (stackOK_cons (by intro n b h; cases h) hk)
+      (fun s' e h => hR _ _ (handed_err _ (by simpa [playUndo] using h))) (fun hf => by cases hf)
   · exact hR _ _ (handed_err _ hd.1)
 
 theorem closeConn_calm (s : St) (hd : Calm s) : Calm (closeConn s) := by
@@ -140,6 +170,9 @@ theorem afterReset_good (s : St) (n : AfterReset) (k : List Fr)
   | switchTcp a =>
     exact describeStart_good _ _ _ _ _ (by simpa [Calm] using hc)
       (stackOK_cons (by intro n b h; cases h) hk) hR
+  | switchAll ms =>
+    exact describeStart_good _ _ _ _ _ (by simpa [Calm] using hc)
+      (stackOK_cons (by intro n b h; cases h) hk) (swEnd_good retK hR)
 
 theorem resetStart_good (c : Cfg) (s : St) (n : AfterReset) (k : List Fr)
     (retK : St → Val → St) (hd : Calm s) (hk : StackOK k) (hR : ∀ s' v, Handed s' v → Good (retK s' v)) :
@@ -168,7 +201,7 @@ theorem setupResp_good (c : Cfg) (s : St) (a : SetupArgs) (p : Proto) (r : Resp)
     have h := commitSetup_calm s a p ch hd
     exact hR _ _ (handed_calm _ h.1 (by rw [h.2]; exact hc))
   · exact hR _ _ (handed_err _ hd.1)
-  · exact setupStart_good _ _ _ _ _ (by simpa [Calm] using hd) hk hR
+  · exact setupStart_good _ _ _ _ _ _ (by simpa [Calm] using hd) (by simpa using hk) hR
   · exact resetStart_good _ _ _ _ _ (by simpa [Calm] using hd) hk hR
 
 theorem describeResp_good (c : Cfg) (s : St) (rd : Nat) (r : Resp) (k : List Fr)
@@ -324,25 +357,49 @@ theorem frameRet_good (c : Cfg) (f : Fr) (k : List Fr) (retK : St → Val → St
     | err e => exact hR _ _ (handed_err _ hA.1)
     | nil =>
       have hc := hcalm (by intro e h; cases h)
-      exact setupStart_good _ _ _ _ _ hc.1 hk' hR
+      exact setupStart_good _ _ _ _ _ _ hc.1 (by simpa using hk') hR
     | resp r =>
       have hc := hcalm (by intro e h; cases h)
-      exact setupStart_good _ _ _ _ _ hc.1 hk' hR
+      exact setupStart_good _ _ _ _ _ _ hc.1 (by simpa using hk') hR
   | resetK n saved =>
     have hs : saved = false := hk _ (List.mem_cons_self ..) n saved rfl
     subst hs
     exact afterReset_good _ _ _ _ ⟨by simpa using hA.1, rfl⟩ hk' hR
-
-theorem runExit_good (s : St) (e : Err) : Good (runExit s (some e)) := by
-  have hc : (runExit s (some e)).closed = true := by
-    simp only [runExit, closeConn, sendReq, emit]
-    repeat' split
-    all_goals simp_all
-  have hr : (runExit s (some e)).closeRes = some e := by
-    simp only [runExit, closeConn, sendReq, emit]
-    repeat' split
-    all_goals simp_all
-  exact ⟨fun _ => by rw [hr]; simp, fun h => by rw [hc] at h; cases h⟩
+  | swDescK ms =>
+    cases v with
+    | err e => exact runExit_good _ _
+    | nil =>
+      have hc := hcalm (by intro e h; cases h)
+      cases ms <;> simp only []
+      · exact playStart_good _ _ _ _ hc.1 (stackOK_cons (by intro n b h; cases h) hk') (swEnd_good retK hR)
+      · exact setupStart_good _ _ _ _ _ _ hc.1 (stackOK_cons (by intro n b h; cases h) hk') (swEnd_good retK hR)
+    | resp r =>
+      have hc := hcalm (by intro e h; cases h)
+      cases ms <;> simp only []
+      · exact playStart_good _ _ _ _ hc.1 (stackOK_cons (by intro n b h; cases h) hk') (swEnd_good retK hR)
+      · exact setupStart_good _ _ _ _ _ _ hc.1 (stackOK_cons (by intro n b h; cases h) hk') (swEnd_good retK hR)
+  | swSetupK rest =>
+    cases v with
+    | err e => exact runExit_good _ _
+    | nil =>
+      have hc := hcalm (by intro e h; cases h)
+      cases rest <;> simp only []
+      · exact playStart_good _ _ _ _ hc.1 (stackOK_cons (by intro n b h; cases h) hk') (swEnd_good retK hR)
+      · exact setupStart_good _ _ _ _ _ _ hc.1 (stackOK_cons (by intro n b h; cases h) hk') (swEnd_good retK hR)
+    | resp r =>
+      have hc := hcalm (by intro e h; cases h)
+      cases rest <;> simp only []
+      · exact playStart_good _ _ _ _ hc.1 (stackOK_cons (by intro n b h; cases h) hk') (swEnd_good retK hR)
+      · exact setupStart_good _ _ _ _ _ _ hc.1 (stackOK_cons (by intro n b h; cases h) hk') (swEnd_good retK hR)
+  | swPlayK =>
+    cases v with
+    | err e => exact runExit_good _ _
+    | nil =>
+      have hc := hcalm (by intro e h; cases h)
+      exact hR _ _ (handed_calm _ hc.1 hc.2)
+    | resp r =>
+      have hc := hcalm (by intro e h; cases h)
+      exact hR _ _ (handed_calm _ hc.1 hc.2)
 
 theorem handOver_keeps (s : St) (r : Res) :
     (handOver s r).mustClose = s.mustClose ∧ (handOver s r).ctxDone = s.ctxDone ∧
@@ -401,14 +458,8 @@ theorem startApi_good (c : Cfg) (s : St) (a : Api) (hd : Calm s) (hc : s.ctxDone
       | (rename_i s1 h1
          exact startDo_good _ _ _ _ _ _ _ _ (connOpen_calm h1 hp).1 (stackOK_cons (by intro n b h; cases h) hk)
            (fun s' e h => hR _ _ (handed_err _ h)) (fun hf => by cases hf))
-  | setup a => exact setupStart_good _ _ _ _ _ hp hk hR
-  | play =>
-    simp only []
-    repeat' split
-    all_goals first
-      | exact hR _ _ (handed_err _ hp.1)
-      | exact startDo_good _ _ _ _ _ _ _ _ (by simpa [Calm] using hp) (stackOK_cons (by intro n b h; cases h) hk)
-          (fun s' e h => hR _ _ (handed_err _ (by simpa [playUndo] using h))) (fun hf => by cases hf)
+  | setup a => exact setupStart_good _ _ _ _ _ _ hp (by simpa using hk) hR
+  | play => exact playStart_good _ _ _ _ hp (by simpa using hk) hR
   | record =>
     simp only []
     repeat' split
@@ -455,6 +506,17 @@ theorem step_good (c : Cfg) (s : St) (e : Ev) (h : Good s) : Good (step c s e) :
         · exact runExit_good _ _
       | readErr => exact runExit_good _ _
       | timer => exact h
+      | liveness got stale =>
+        simp only [checkTimeout, switchStart]
+        repeat' split
+        all_goals first
+          | exact h
+          | exact runExit_good _ _
+          | (refine ⟨fun hh => ?_, fun _ => ?_⟩
+             · simp [hcl'] at hh
+             · exact ⟨by simpa using hg.1, by simpa using hg.2.1, by simpa using hg.2.2⟩)
+          | exact resetStart_good c _ _ _ _ (by simpa [Calm] using hcalm) (fun f hf => by cases hf)
+              (resume_good c [] (fun f hf => by cases hf))
       | close => exact runExit_good _ _
     · -- waiting
       rename_i m n tp k hst
@@ -481,6 +543,7 @@ theorem step_good (c : Cfg) (s : St) (e : Ev) (h : Good s) : Good (step c s e) :
         · exact hR _ _ (handed_err _ (by simpa using hcl'))
       | readErr => exact hR _ _ (handed_err _ (by simpa using hcl'))
       | timer => exact hR _ _ (handed_err _ (by simpa using hcl'))
+      | liveness got stale => exact h
       | close => exact hR _ _ (handed_err _ (by simpa using hcl'))
     · exact h
 
